@@ -1,6 +1,6 @@
 PROPERTY = "C07"
 LEVEL = "proof"
-LEAN_MODULES = ["CifModel.Props.C07"]
+LEAN_MODULES = ["CifModel.Props.C07", "CifModel.Props.ReviewC07"]
 REQUIRED = ["CifModel.C07_serialize_roundtrip", "CifModel.C07_serialize_buffer", "CifModel.C07_buf_write_terminates",
             "CifModel.C07_buf_write_ok", "CifModel.C07_default_cap_ok", "CifModel.C07_columns_roundtrip",
             "CifModel.C07_schema_link", "CifModel.C07_numb_in_list", "CifModel.C07_numb_in_list_full", "CifModel.C07_numb_produced_consistent",
